@@ -671,8 +671,8 @@ reg(C14("C14"))
 # ---- C16 / C09 -------------------------------------------------------------------------------------
 class C16(Check):
     rule = DOC_RULE + "; weight on lists ending in blank lines, unclosed fences, HTML blocks, setext headings, definitions followed by text"
-    obligations = [("main", "SliceReparse", "C16_reparse_paras"), ("main", "SliceReparse", "C16_two_paragraphs"), ("main", "SliceReparse", "C16_reparse_last"), ("main", "L2BndS", "parseBlocks_bounds"), ("main", "C01a", "C01_ordered"), ("stream", "C14b", "nb_shift")]
-    assumptions = ["the property is proved end to end on a slice only: for any number of one-line text paragraphs separated by a blank line, every root's Source parsed alone gives exactly that root (line 1, offset 0) — up to the model's internal lastLineBlank flag of a root followed by a blank line, which no accessor exposes (SliceReparse.C16_reparse_paras; the literal statement including that flag is refuted, ex_reparse_flag); for general inputs what is machine-checked are the supporting invariants (root blocks are cut at ends bounded by the line read; shifting by a blank prefix); the property itself is decided by the re-parse oracle on the implementation and by the full-tree correspondence"]
+    obligations = [("main", "ReparseRun", "C16_cleanCut_partial"), ("main", "Reparse", "C16_checked_partial"), ("main", "ReparseEof", "reparse_clean_call_reduce"), ("main", "ReparseLocal", "cutOf_prefix"), ("main", "ReparseDefs", "C16_blocks_literal_refuted"), ("main", "SliceReparse", "C16_reparse_paras"), ("main", "SliceReparse", "C16_two_paragraphs"), ("main", "SliceReparse", "C16_reparse_last"), ("main", "L2BndS", "parseBlocks_bounds"), ("main", "C01a", "C01_ordered"), ("stream", "C14b", "nb_shift")]
+    assumptions = ["the property is proved end to end on a slice only: for any number of one-line text paragraphs separated by a blank line, every root's Source parsed alone gives exactly that root (line 1, offset 0) — up to the model's internal lastLineBlank flag of a root followed by a blank line, which no accessor exposes (SliceReparse.C16_reparse_paras; the literal statement including that flag is refuted, ex_reparse_flag); for general inputs without NUL, at the block layer: every root block that is closed at the position read so far (closed by its own last line or by end of input: ATX headings, thematic breaks, setext headings, closed fences, ended HTML blocks, last roots; the executable condition cleanCut) re-parses to itself including the flag (ReparseRun.C16_cleanCut_partial); for a root cut at the start of the line that closed it the property is reduced to a one-line statement, closing by end of input = closing by that line (ReparseEof.reparse_clean_call_reduce), which is not proved, and roots coming from pending children are not covered; the statement with the root's lastLineBlank flag compared literally is refuted ('- a', blank line, 'para': ReparseDefs.C16_blocks_literal_refuted — the flag is internal, no accessor exposes it); besides that what is machine-checked are the supporting invariants (root blocks are cut at ends bounded by the line read; shifting by a blank prefix); the property itself is decided by the re-parse oracle on the implementation and by the full-tree correspondence"]
 
     def jobs(self, seed, tier):
         cases = [(d, "") for d in docs(seed, tier, quick=3000, thorough=150000)]
